@@ -27,8 +27,27 @@ ENGINES["endpoint"] = {
                "endpoint.closed-by-nat-expiry", "endpoint.retired-by-invalidation", "tuple.deleted", "tuple.deleted-after-shared-ownership"],
 }
 
+ENGINES["health"] = {
+    "pkg": "control",
+    "tags": "dae_stub_ebpf",
+    "test": "TestSimC16",
+    "extra_files": {"component/outbound/dialer/zz_verif_access.go": "harness/dialer/access.go.txt"},
+    "instrument": [
+        {"pkg": "component/outbound/dialer",
+         "files": ["connectivity_check.go", "dialer.go", "alive_dialer_set.go", "recovery_state.go", "sticky_cache.go"],
+         "replace": ["CachedTimeNano=return time.Now().UnixNano()"]},
+        {"pkg": "component/outbound", "files": ["dialer_group.go"]},
+        {"pkg": "control", "files": ["connectivity.go"]},
+    ],
+    "harness": ["harness/control/health_test.go"],
+    "quick_secs": 40, "thorough_secs": 500,
+    "probes": ["health.real-connectivity-map", "health.suppression-window", "health.policy-switch", "health.reload-handover"],
+}
+
 PROPS = {
     "C13": {"engines": ["taskpool", "endpoint"]},
+    "C16": {"engines": ["health"], "rule_exclude_prefixes": ["select-"]},
+    "C15": {"engines": ["health"], "rule_prefixes": ["select-", "alive-set-index", "task-panic"]},
 }
 
 # engines contributed by separately developed simulators
